@@ -10,6 +10,7 @@ package main
 
 import (
 	"fmt"
+	"math"
 	"os"
 	"strconv"
 	"strings"
@@ -43,12 +44,12 @@ type lop struct {
 }
 
 type luaConfig struct {
-	name     string
-	start    []sop
+	name      string
+	start     []sop
 	startExpr string // optional table constructor spelling of the start state (must equal start)
-	menu     []string
-	depthQ   int
-	depthT   int
+	menu      []string
+	depthQ    int
+	depthT    int
 
 	ops   []lop
 	keys  []*AKey
@@ -193,7 +194,6 @@ func (c *luaConfig) header(sb *strings.Builder) {
 	sb.WriteString("  return k\nend\n")
 }
 
-
 const metaSrc = `{__index=function(_,k) emit("ix",kn(k)) return nil end, __newindex=function(tt,k,v) emit("ni",kn(k),v) rawset(tt,k,v) end}`
 
 func (c *luaConfig) startSrc() string {
@@ -242,12 +242,6 @@ func (c *luaConfig) library() string {
 
 // ---- trace parsing
 
-type tval struct {
-	isKey bool
-	key   reftable.Key
-	raw   string
-}
-
 func splitEvent(e string) []string {
 	// fields are separated by commas; strings are Go-quoted and never contain
 	// commas in this check
@@ -268,7 +262,7 @@ func (c *luaConfig) parseKey(f string) (reftable.Key, bool) {
 		case "f:nan", "f:inf", "f:-inf":
 			return reftable.Key{}, false
 		case "f:-0":
-			return reftable.Float(-0.0), true
+			return reftable.Float(math.Copysign(0, -1)), true
 		}
 		x, err := strconv.ParseFloat(f[2:], 64)
 		return reftable.Float(x), err == nil
@@ -332,9 +326,12 @@ func (s *luaState) describe() string {
 		"\nequivalent stand-alone program (" + confirm + "; observed " + st2.(*luaState).obs + "):\n" + s.c.program(s.h)
 }
 
-func (c *luaConfig) label() string     { return "lua " + c.name }
-func (c *luaConfig) startDesc() string { c.resolve(); return strings.ReplaceAll(c.program(nil), "\n", " ; ") }
-func (c *luaConfig) nOps() int         { return len(c.ops) }
+func (c *luaConfig) label() string { return "lua " + c.name }
+func (c *luaConfig) startDesc() string {
+	c.resolve()
+	return strings.ReplaceAll(c.program(nil), "\n", " ; ")
+}
+func (c *luaConfig) nOps() int { return len(c.ops) }
 func (c *luaConfig) opName(i uint16) string {
 	return c.stmt(c.ops[i], true)
 }
@@ -787,21 +784,21 @@ func (c *luaConfig) check(h []uint16, obs host.Obs, st *luaState) (int, *vinfo) 
 func luaConfigs() []*luaConfig {
 	var cs []*luaConfig
 	add := func(c *luaConfig) { c.buildOps(); cs = append(cs, c) }
-	add(&luaConfig{name: "empty/arr", menu: []string{"i1", "i2", "f2", "i3"}, depthQ: 4, depthT: 5})
-	add(&luaConfig{name: "empty/hash", menu: []string{"i10", "f10", "s:x", "true"}, depthQ: 4, depthT: 5})
-	add(&luaConfig{name: "empty/zero", menu: []string{"i0", "f0", "i1", "i-1"}, depthQ: 3, depthT: 4})
-	add(&luaConfig{name: "empty/clo", menu: []string{"C40a", "C41a", "W44a", "T02a"}, depthQ: 4, depthT: 5})
-	add(&luaConfig{name: "empty/big", menu: []string{"i2^53", "f2^53", "f2^63", "f1.5", "imin", "f-2^63"}, depthQ: 3, depthT: 4})
-	add(&luaConfig{name: "ctor3", startExpr: "{1,2,3}", start: []sop{{"i1", 1}, {"i2", 2}, {"i3", 3}}, menu: []string{"i1", "i3", "f3", "i4"}, depthQ: 4, depthT: 5})
-	add(&luaConfig{name: "ctor1+zero", startExpr: "{1}", start: []sop{{"i1", 1}}, menu: []string{"i0", "i1", "i2"}, depthQ: 3, depthT: 4})
-	add(&luaConfig{name: "hash10", start: sets(1, "i10", "s:x"), menu: []string{"i10", "f10", "i1", "s:x"}, depthQ: 4, depthT: 5})
-	add(&luaConfig{name: "int9", start: sets(7, ints(1, 9)...), menu: []string{"i8", "i9", "f9", "i10", "i1"}, depthQ: 3, depthT: 4})
-	add(&luaConfig{name: "int16", start: sets(7, ints(1, 16)...), menu: []string{"i16", "f16", "i17", "i1", "i15"}, depthQ: 3, depthT: 4})
-	add(&luaConfig{name: "str9", start: sets(7, str9...), menu: []string{"S01a", "S17a", "S05c", "S15a", "i1"}, depthQ: 3, depthT: 4})
-	add(&luaConfig{name: "str16", start: sets(7, str16...), menu: []string{"S01a", "S33a", "S49a", "S05a", "i1"}, depthQ: 3, depthT: 4})
-	add(&luaConfig{name: "mix17", start: mixTo(mix17, 7), menu: []string{"i4", "f4", "i5", "S01a", "true", "f1.5"}, depthQ: 3, depthT: 4})
-	add(&luaConfig{name: "clo9", start: cat(sets(7, str8...), sets(7, "C40a")), menu: []string{"C40a", "C41a", "W44a", "S01a"}, depthQ: 3, depthT: 4})
-	add(&luaConfig{name: "int16/tomb", start: cat(sets(7, ints(1, 16)...), sets(0, "i16", "i15", "i3")), menu: []string{"i14", "i15", "i16", "i3", "f3"}, depthQ: 3, depthT: 4})
+	add(&luaConfig{name: "empty/arr", menu: []string{"i1", "i2", "f2", "i3"}, depthQ: 4, depthT: 6})
+	add(&luaConfig{name: "empty/hash", menu: []string{"i10", "f10", "s:x", "true"}, depthQ: 4, depthT: 6})
+	add(&luaConfig{name: "empty/zero", menu: []string{"i0", "f0", "i1", "i-1"}, depthQ: 3, depthT: 5})
+	add(&luaConfig{name: "empty/clo", menu: []string{"C40a", "C41a", "W44a", "T02a"}, depthQ: 4, depthT: 6})
+	add(&luaConfig{name: "empty/big", menu: []string{"i2^53", "f2^53", "f2^63", "f1.5", "imin", "f-2^63"}, depthQ: 3, depthT: 5})
+	add(&luaConfig{name: "ctor3", startExpr: "{1,2,3}", start: []sop{{"i1", 1}, {"i2", 2}, {"i3", 3}}, menu: []string{"i1", "i3", "f3", "i4"}, depthQ: 4, depthT: 6})
+	add(&luaConfig{name: "ctor1+zero", startExpr: "{1}", start: []sop{{"i1", 1}}, menu: []string{"i0", "i1", "i2"}, depthQ: 3, depthT: 5})
+	add(&luaConfig{name: "hash10", start: sets(1, "i10", "s:x"), menu: []string{"i10", "f10", "i1", "s:x"}, depthQ: 4, depthT: 6})
+	add(&luaConfig{name: "int9", start: sets(7, ints(1, 9)...), menu: []string{"i8", "i9", "f9", "i10", "i1"}, depthQ: 3, depthT: 5})
+	add(&luaConfig{name: "int16", start: sets(7, ints(1, 16)...), menu: []string{"i16", "f16", "i17", "i1", "i15"}, depthQ: 3, depthT: 5})
+	add(&luaConfig{name: "str9", start: sets(7, str9...), menu: []string{"S01a", "S17a", "S05c", "S15a", "i1"}, depthQ: 3, depthT: 5})
+	add(&luaConfig{name: "str16", start: sets(7, str16...), menu: []string{"S01a", "S33a", "S49a", "S05a", "i1"}, depthQ: 3, depthT: 5})
+	add(&luaConfig{name: "mix17", start: mixTo(mix17, 7), menu: []string{"i4", "f4", "i5", "S01a", "true", "f1.5"}, depthQ: 3, depthT: 5})
+	add(&luaConfig{name: "clo9", start: cat(sets(7, str8...), sets(7, "C40a")), menu: []string{"C40a", "C41a", "W44a", "S01a"}, depthQ: 3, depthT: 5})
+	add(&luaConfig{name: "int16/tomb", start: cat(sets(7, ints(1, 16)...), sets(0, "i16", "i15", "i3")), menu: []string{"i14", "i15", "i16", "i3", "f3"}, depthQ: 3, depthT: 5})
 	return cs
 }
 
@@ -825,11 +822,11 @@ func luaFamilies(tier string) []*core.Family {
 			cases = append(cases, luaCaseRef{c, g})
 		}
 	}
-	caseCap := 50 * time.Second
-	hang, budget := 200, 60
+	caseCap := time.Duration(scaleBudget(50)) * time.Second
+	hang, budget := scaleBudget(200), scaleBudget(18)
 	if tier == "thorough" {
-		caseCap = 300 * time.Second
-		hang, budget = 900, 500
+		caseCap = time.Duration(scaleBudget(300)) * time.Second
+		hang, budget = scaleBudget(900), scaleBudget(150)
 	}
 	search := &core.Family{
 		Name:          "lua-search",
